@@ -150,7 +150,7 @@ def mc_jobs(ctx):
 
     def sub(text, **kv):
         for k, v in kv.items():
-            text, n = re.subn(r"\b%s = \w+" % k, "%s = %s" % (k, v), text)
+            text, n = re.subn(r"\b%s = \S+" % k, "%s = %s" % (k, v), text)
             if n != 1:
                 raise core.Machinery("constant %s not found in a TcpSenderMC configuration" % k)
         return text
